@@ -101,6 +101,7 @@ func checkC08(c *Ctx) {
 	srcOf, outOf := map[string]string{}, map[string]string{}
 	var ref []*RefCase
 	nInline := 0
+	var hevs []map[string]interface{}
 	for i := 0; i < n; i++ {
 		withData := i%3 == 2 // every third file has inline text / moves() in its bodies (no Refine case then)
 		g := newFgen(r, FileCfg{Inline: withData, Ctl: GenCfg{MaxDepth: 2, MaxStmts: 2, MaxLeaves: 2, Switches: true}})
@@ -181,6 +182,16 @@ func checkC08(c *Ctx) {
 				continue
 			}
 			outOf[fid] = res.Out
+			if withData {
+				// inline text / moves() inside inline map scripts must be hoisted
+				// like in a script statement: the file's trace goes to HoistTrace
+				e, err := hoistEvents(fid, f, res)
+				if err != nil {
+					c.Fatal("building events: %v", err)
+					return
+				}
+				hevs = append(hevs, e...)
+			}
 			pa := ParseAsm(res.Out)
 			for _, ti := range msTops {
 				t := &f.Tops[ti]
@@ -220,6 +231,14 @@ func checkC08(c *Ctx) {
 		seen[fid] = true
 		c.Violate(Violation{What: "mapscripts header/tables not complete, ordered and terminated, or an inline script not defined exactly once (" + id + ")",
 			Source: srcOf[fid], Detail: map[string]interface{}{"output": outOf[fid]}})
+	}
+	if len(hevs) > 0 {
+		to := runTraceSpec(c, "HoistTrace", "HoistTrace.cfg", "hoist.ndjson", hevs)
+		for fid, why := range to.Rejected {
+			c.Violate(Violation{What: "inline data of an inline map script is not hoisted like in a script statement: " + why,
+				Source: srcOf[fid], Detail: map[string]interface{}{"output": outOf[fid]}})
+		}
+		states += to.States
 	}
 	st := RunRefine(c, ref, 1500, "an inline map script does not behave like its body", nil)
 	c.Cov("mapscripts_statements", int64(len(recs)))
